@@ -8,7 +8,7 @@ From Coq Require Import Reals String List.
 From ESRV Require Import Model.Shapes.
 From ESRV Require Import Model.NodeStr Model.SymSem Gen.GenSymtab Proofs.NodeStrProofs Proofs.SymtabProofs.
 From ESRV Require Gen.GenNodeStr.
-From ESRV Require Import Proofs.NodeStrGenProofs.
+From ESRV Require Import Proofs.NodeStrGenProofs Gen.GenShapes Proofs.ShapesGenProofs.
 Import ListNotations.
 Open Scope string_scope.
 
@@ -38,6 +38,18 @@ Theorem C02_code_check_tree_then_node_to_string : forall u L tr,
   GenNodeStr.node_to_string (Shapes.size u) (Some 0%nat) tr L = Some (Some (NodeStr.node_to_string (lab u L 0))).
 Proof. exact check_tree_then_node_to_string. Qed.
 Print Assumptions C02_code_check_tree_then_node_to_string.
+
+(* both functions as regenerated from the source, composed: for every shape with at least two nodes and every label list of the right
+   length, check_tree on the shape string succeeds and node_to_string on the arrays it returns is the structural rendering *)
+Theorem C02_code_shape_to_string : forall u L,
+  (2 <= Shapes.size u)%nat -> (Shapes.size u <= length L)%nat ->
+  exists tr, check_tree_code (pre u) = Some (true, Some (pre u), tr) /\
+             GenNodeStr.node_to_string (Shapes.size u) (Some 0%nat) tr L = Some (Some (NodeStr.node_to_string (lab u L 0))).
+Proof.
+  exact (fun u L H2 HL => ex_intro _ (arr u 0 None)
+           (conj (code_check_tree_arrays u H2) (gen_node_to_string_tree u L (Shapes.size u) HL (le_n _)))).
+Qed.
+Print Assumptions C02_code_shape_to_string.
 
 (* complexity 0: the empty tree is written as the string 0 *)
 Theorem C02_code_empty_tree : forall idx L fuel, GenNodeStr.node_to_string (S fuel) idx [] L = Some (Some "0"%string).
